@@ -1954,11 +1954,19 @@ def c11(chk):
     scen, models, metas = [], [], []
     n = 40 if quick else 500
     MS = 1000000
-    for i in range(n):
-        rng = chk.rng
+    # (the scenarios with a default of zero come last and draw from a generator of their own: the others do not depend on them)
+    import random as _random
+    rng0 = _random.Random("c11-zero-%d" % chk.seed)
+    for i in range(n + (8 if quick else 60)):
+        rng = chk.rng if i < n else rng0
         delay_ms = rng.choice([1, 5, 20])
         out_to = rng.choice([None, None, 100, 300, 1000])
         in_to = rng.choice([None, None, 100, 300, 1000])
+        # a configured default of zero is a default like any other (deadline 0: nothing that has to wait gets through)
+        if i >= n and i % 2 == 0:
+            in_to = 0
+        elif i >= n:
+            out_to = 0
         hk = rng.choice(["none", "none", "ms", "ms", "garbage", "huge"])
         if hk == "ms":
             hv = rng.choice([50, 200, 600, 2000])
@@ -1982,8 +1990,8 @@ def c11(chk):
             continue
         cmds = ["seed=%d delay=%d" % (rng.randrange(1 << 30), delay_ms * 1000),
                 # in a third of the runs the caller was built with an outbound request layer of its own (a no-op one)
-                "node 0 idle=600000 keepalive=5000" + (" out_to=%d" % out_to if out_to else "") + (" outlayer=1" if rng.random() < 0.35 else ""),
-                "node 1 idle=600000 keepalive=5000" + (" in_to=%d" % in_to if in_to else ""),
+                "node 0 idle=600000 keepalive=5000" + (" out_to=%d" % out_to if out_to is not None else "") + (" outlayer=1" if rng.random() < 0.35 else ""),
+                "node 1 idle=600000 keepalive=5000" + (" in_to=%d" % in_to if in_to is not None else ""),
                 "connect 0 1", "sleep 500",
                 # the handler needs its time in one await, or in several (7, 30) shorter ones: the deadline counts from the start
                 "rpc 0 1 id=t size=20 sleep-ms=%d%s%s" % (h, " timeout-hdr=%s" % (hdr.encode().hex() or "-") if hdr is not None else "", rng.choice(["", "", " ticks=7", " ticks=30"])),
@@ -2023,6 +2031,14 @@ def c11(chk):
             chk.disagree(sc, "%s after %.1f ms" % (got, el_ms), "%s after %.1f ms (%s)" % (mk, mt_ms, mc), "simnet/deadline")
             continue
         st = fields(res[6])
+        if out_to == 0:
+            # an outbound default of zero: no call of this node can wait for anything, the follow-up call included
+            chk.count("outbound-default-zero")
+            if not res[7].startswith("err timeout"):
+                chk.monitor_fail("the caller's outbound default is 0 ms, yet a follow-up RPC was not cut off at once: " + res[7][:80], dict(case=sc))
+            continue
+        if in_to == 0:
+            chk.count("inbound-default-zero")
         if got != "response" and int(st["dropped"]) != 1:
             chk.monitor_fail("the handler of a timed-out request was not dropped (started=%s completed=%s dropped=%s)" % (st["started"], st["completed"], st["dropped"]), dict(case=sc, impl=res[6]))
         if not res[7].startswith("ok st=200"):
